@@ -234,6 +234,54 @@ func check(e peer.Entry, pkg tds.Package) (err error) {
 		} else {
 			eq("rowCount", p.RowCount, int32(0))
 		}
+	case "CURDECLARE", "CURDECLARE3":
+		p := pkg.(*tds.CurDeclarePackage)
+		eq("wide", reflect.ValueOf(pkg).Elem().FieldByName("wide").Bool(), v[0])
+		eq("name", p.Name, v[1])
+		eq("options", uint32(p.Options), v[2])
+		eq("status", uint8(p.Status), v[3])
+		eq("stmt", p.Stmt, v[4])
+		columns := reflect.ValueOf(pkg).Elem().FieldByName("columns")
+		got := []string{}
+		for i := 0; i < columns.Len(); i++ {
+			got = append(got, columns.Index(i).String())
+		}
+		eq("columns", got, v[5])
+	case "CUROPEN":
+		p := pkg.(*tds.CurOpenPackage)
+		eq("cursorID", p.CursorID, v[0])
+		eq("name", p.Name, cursorName(v))
+		eq("status", uint8(p.Status), v[2])
+	case "CURFETCH":
+		p := pkg.(*tds.CurFetchPackage)
+		eq("cursorID", p.CursorID, v[0])
+		eq("name", p.Name, cursorName(v))
+		eq("type", uint8(p.Type), v[2])
+		// Entries of fetch types without a row number hold 0.
+		eq("rowNumber", p.RowNumber, v[3])
+	case "CURUPDATE":
+		p := pkg.(*tds.CurUpdatePackage)
+		eq("cursorID", p.CursorID, v[0])
+		eq("name", p.Name, cursorName(v))
+		eq("status", uint8(p.Status), v[2])
+		eq("table", p.TableName, v[3])
+		eq("stmt", p.Stmt, v[4])
+	case "CURDELETE":
+		p := pkg.(*tds.CurDeletePackage)
+		eq("cursorID", p.CursorID, v[0])
+		eq("name", p.Name, cursorName(v))
+		eq("status", uint8(p.Status), v[2])
+		eq("table", p.TableName, v[3])
+	case "CURCLOSE":
+		p := pkg.(*tds.CurClosePackage)
+		eq("cursorID", p.CursorID, v[0])
+		eq("name", p.Name, cursorName(v))
+		eq("options", uint8(p.Options), v[2])
+	case "OPTIONCMD":
+		p := pkg.(*tds.OptionCmdPackage)
+		eq("cmd", uint8(p.Cmd), v[0])
+		eq("option", uint8(p.Option), v[1])
+		eq("arg", append([]byte{}, p.OptionArg...), v[2])
 	case "LANGUAGE":
 		p := pkg.(*tds.LanguagePackage)
 		eq("status", uint8(p.Status), v[0])
@@ -264,6 +312,34 @@ func check(e peer.Entry, pkg tds.Package) (err error) {
 
 	if len(errs) > 0 {
 		return fmt.Errorf("decoded values differ: %s", strings.Join(errs, "; "))
+	}
+	return nil
+}
+
+// cursorName returns the name the cursor command tokens transmit: v[1],
+// but only when the cursor id v[0] is 0.
+func cursorName(v []interface{}) interface{} {
+	if v[0] == int32(0) {
+		return v[1]
+	}
+	return ""
+}
+
+// decodeAs feeds b to pkg although LookupPackage would not choose it.
+func decodeAs(pkg tds.Package, b []byte) error {
+	queue := tds.NewPacketQueue(func() int { return 65535 })
+	queue.AddPacket(&tds.Packet{
+		Header: tds.PacketHeader{Length: uint16(8 + len(b)), Status: tds.TDS_BUFSTAT_EOM},
+		Data:   b,
+	})
+	if _, err := queue.Byte(); err != nil {
+		return fmt.Errorf("reading token: %w", err)
+	}
+	if err := pkg.ReadFrom(queue); err != nil {
+		return fmt.Errorf("ReadFrom: %w", err)
+	}
+	if !queue.IsEOM() || !queue.AllPacketsConsumed() {
+		return fmt.Errorf("not all of %d bytes were consumed", len(b))
 	}
 	return nil
 }
@@ -585,6 +661,37 @@ func TestDisputedEvidence(t *testing.T) {
 			}
 			if v := pkg.(*tds.RowPackage).DataFields[0].Value(); !reflect.DeepEqual(v, []byte{}) {
 				t.Errorf("%s with timestamp and data length: got %#v", e.Name, v)
+			}
+		case e.Kind == "CURDECLARE":
+			// Widen the one byte column count to the two bytes of
+			// TDS_CURDECLARE3.
+			at := 3 + 1 + len(e.Values[1].(string)) + 1 + 1 + 2 + len(e.Values[4].(string))
+			b := append([]byte{}, e.Bytes[:at+1]...)
+			b = append(b, 0)
+			b = append(b, e.Bytes[at+1:]...)
+			length := int(b[1]) | int(b[2])<<8
+			length++
+			b[1], b[2] = byte(length), byte(length>>8)
+			pkg, err := decode(b, nil)
+			if err == nil {
+				err = check(e, pkg)
+			}
+			if err != nil {
+				t.Errorf("%s with two byte column count: %v", e.Name, err)
+			}
+		case e.Kind == "CURCLOSE" || e.Kind == "OPTIONCMD":
+			// The library's decoder for the token reads exactly these
+			// bytes, LookupPackage just does not hand it out.
+			var pkg tds.Package = &tds.CurClosePackage{}
+			if e.Kind == "OPTIONCMD" {
+				pkg = &tds.OptionCmdPackage{}
+			}
+			err := decodeAs(pkg, e.Bytes)
+			if err == nil {
+				err = check(e, pkg)
+			}
+			if err != nil {
+				t.Errorf("%s read by %T: %v", e.Name, pkg, err)
 			}
 		}
 	}
